@@ -53,6 +53,7 @@ class VCase:
         self.timeout_ms = timeout_ms
         self.expect = expect
         self.note = note
+        self.check_repeat = True
         self.instrument = instrument    # instrument(root, T) -> finalize() -> [(fact name, bool)]   (ghost state, e.g. invocation counters)
 
     def describe(self):
@@ -191,6 +192,17 @@ def close(a, b, scale=1.0):
 
 
 # ------------------------------------------------------------------------------------------ symbolic execution
+def _same_term(x, y):
+    if x is y:
+        return True
+    try:
+        x = S.of(x)
+        y = S.of(y)
+    except Exception:
+        return False
+    return x.n.eq(y.n) and x.d.eq(y.d)
+
+
 class PathResult:
     __slots__ = ("status", "out", "g", "grads", "frames", "exc", "phase")
 
@@ -234,6 +246,18 @@ def _symbolic_paths(case, eps_mode):
                 r.status = "untracked-root"
                 return r
             r.out = np.array(out.data, dtype=object) if not isinstance(out.data, np.ndarray) else out.data
+            rep_ok = None
+            if case.check_frame and case.check_repeat:
+                # repeating the operation on unchanged operands gives identical results (fresh Tensors over the same arrays)
+                try:
+                    T2 = {l.name: Tensor(datas[l.name][0], requires_grad=l.requires_grad) for l in case.leaves}
+                    out2 = case.build(T2, dict(scal))
+                    o2 = np.asarray(out2.data, dtype=object)
+                    rep_ok = o2.shape == r.out.shape and all(_same_term(x, y) for x, y in zip(o2.ravel(), np.asarray(r.out, dtype=object).ravel()))
+                except PathBudgetExceeded:
+                    raise
+                except Exception:
+                    rep_ok = False
             garr = symarr("g", r.out.shape)
             gsnap = garr.copy()
             gT = Tensor(garr)
@@ -263,6 +287,8 @@ def _symbolic_paths(case, eps_mode):
             for l in case.leaves:
                 if not l.requires_grad:
                     fr.append(("no-grad-for-non-requiring[%s]" % l.name, T[l.name]._grad is None))
+            if rep_ok is not None:
+                fr.append(("repeat-gives-identical-result", rep_ok))
             if fin is not None:
                 fr.extend(fin())
             r.frames = fr
@@ -348,6 +374,9 @@ def _run_mode(case, seed, eps_mode, want_post, probe=False):
         if out_shape is None and r.status in ("ok", "backward-raised"):
             out_shape = tuple(r.out.shape)
         # ---- completes
+        if r.status == "backward-raised" and not want_post:
+            out["notes"].append("backward raised (not a frame question; decided by C01/C02)")
+            continue
         out["obligations"] += 1
         if r.status == "backward-raised":
             rep = _replay_exception(case, pc, rng, out_shape, sess)
